@@ -260,7 +260,7 @@ func (x Expr) GetNodes(n gen.Node) (results []gen.Node) {
 				end = tf[1]
 			}
 			if 2 < len(tf) {
-				step = tf[2]
+				step = boundStep(tf[2])
 				if step == 0 {
 					continue
 				}
@@ -561,7 +561,7 @@ func (x Expr) FirstNode(n gen.Node) (result gen.Node) {
 				end = tf[1]
 			}
 			if 2 < len(tf) {
-				step = tf[2]
+				step = boundStep(tf[2])
 				if step == 0 {
 					continue
 				}
